@@ -1,5 +1,7 @@
 import NeverModel.Gen.ParserTab
 import NeverModel.Lemmas.Ledger
+import NeverModel.Lemmas.Own
+import NeverModel.Lemmas.OwnSem
 /-!
 # C16 — compile, run and dispose release all memory, on success and on every error path
 
@@ -12,8 +14,14 @@ Property theorems only.  Two models:
 * `NeverModel/Model/Ledger.lean` — the malloc/free events of back/gc.c + back/object.c on
   top of M-Heap (correspondence tie: harness/h_gcl.c counts the real malloc/free calls).
 
-Not modelled (testing only, `checks/leak_stream.py`): the AST `*_delete` cascade, the
-typechecker's early returns, program/module/vm teardown.
+* `NeverModel/Gen/OwnTab.lean` — REGENERATED on every run by `gen/owntab.py` from clang's AST of every translation unit
+  of front/ and back/: the pointer members of every struct that has a delete function, what each `*_delete` releases on
+  which switch arm, what each constructor stores, where nodes are retagged (translator tie); `NeverModel/Model/Own.lean`
+  is the hand-written discipline (which members are borrowed / released elsewhere; everything else is owned).
+
+Not modelled (testing only, `checks/leak_stream.py`): WHO calls the delete functions — the typechecker's early returns,
+the order of program/module/vm teardown; the table theorems say that each delete function, once called on a node, releases
+everything the node owns, once.
 
 Theorems that are true of the *pinned* tree only because of its known defects
 (`destructor_table_counterexample`, …) live in `Props/C16Pinned.lean`, so that repairing
@@ -120,6 +128,300 @@ error rule with an owning value exist -/
 example : (syms.filter (·.ownsHeap)).length ≥ 40 ∧
     (syms.filter fun s => s.ownsHeap && s.discardable && releases s).length ≥ 20 ∧
     (rules.filter fun r => r.isError && r.rhsIx.any ownsIx).length ≥ 1 := by decide +kernel
+
+
+/-! ## the `*_delete` functions: every owned member is released, once
+
+Tables `dels`, `fields`, `ctors`, `retags`, `lates` are regenerated from the source (`Gen/OwnTab.lean`); the
+classification `classify` (owned unless listed as borrowed / released elsewhere) is `Model/Own.lean`.  Each theorem is a
+finite statement over the regenerated table: its Boolean form is evaluated by the kernel, then unfolded. -/
+section Own
+open Never.Gen.OwnTab Never.Own
+
+/-- **every owned member is released by the struct's delete function on every arm that can hold it.**
+For every delete function `d` of the tree (of a struct of the project), every value `tag` of the member it switches on
+(0 when it does not switch) that a constructor or a retagging site can produce, and every pointer member `f` of the struct
+that can hold something under that tag (`holds`: a constructor able to store that tag fills it from a parameter, a fresh
+allocation or another member; or a fresh allocation is stored into it outside constructors): if the discipline says `f` is
+owned there, then among the releases `d` performs for that tag (outside the switch + the arm, fall-through followed) there
+is an unconditional one at `f`'s offset, applied to the member itself, by the function that releases `f`'s pointee type. -/
+theorem owned_fields_released :
+    ∀ d ∈ dels, d.isOpaque = false → ∀ tag ∈ tagsOf d, reachable (ctorsFor d tag) tag = true →
+      ∀ f ∈ d.fields, holds (ctorsFor d tag) f = true → classify f.id tag = .owned →
+        releasedIn (relsAt d tag) f = true := by
+  have h : dels.all ownedReleasedOk = true := by decide +kernel
+  intro d hd ho tag ht hr f hf hh hc
+  have h1 := List.all_eq_true.mp h d hd
+  simp only [ownedReleasedOk, ho, Bool.false_or] at h1
+  have h2 := List.all_eq_true.mp h1 tag ht
+  simp only [ownedReleasedAt, hr, Bool.not_true, Bool.false_or] at h2
+  have h3 := List.all_eq_true.mp h2 f hf
+  simp only [hh, Bool.not_true, Bool.false_or, fieldOk, hc, Bool.or_false] at h3
+  exact h3
+
+/-- the same for the members owned under a run-time condition that is not the tag (`ownedCond`: the name of a rebuilt
+function-table entry, libffi's struct descriptors and result buffer): the delete function releases them, under a condition -/
+theorem conditionally_owned_fields_released :
+    ∀ d ∈ dels, d.isOpaque = false → ∀ tag ∈ tagsOf d, reachable (ctorsFor d tag) tag = true →
+      ∀ f ∈ d.fields, holds (ctorsFor d tag) f = true → classify f.id tag = .ownedCond →
+        (releasedIn (relsAt d tag) f || releasedCondIn (relsAt d tag) f) = true := by
+  have h : dels.all ownedReleasedOk = true := by decide +kernel
+  intro d hd ho tag ht hr f hf hh hc
+  have h1 := List.all_eq_true.mp h d hd
+  simp only [ownedReleasedOk, ho, Bool.false_or] at h1
+  have h2 := List.all_eq_true.mp h1 tag ht
+  simp only [ownedReleasedAt, hr, Bool.not_true, Bool.false_or] at h2
+  have h3 := List.all_eq_true.mp h2 f hf
+  simpa only [hh, Bool.not_true, Bool.false_or, fieldOk, hc] using h3
+
+/-- **nothing is released twice on one path**: under every tag, the members a delete function releases directly lie at
+pairwise different offsets (union members sharing an offset count as one: `param.array.ret` / `param.range.ret`), and
+the releases it makes inside a pointee (array elements, `vec_value->value`) are pairwise different. -/
+theorem no_double_release :
+    ∀ d ∈ dels, ∀ tag ∈ tagsOf d,
+      (((relsAt d tag).filter (!·.deep)).map (·.off)).Nodup ∧
+      (((relsAt d tag).filter (·.deep)).map fun r => r.field * 1000000 + r.fn * 1000 + r.cond).Nodup := by
+  have h : dels.all noDoubleOk = true := by decide +kernel
+  intro d hd tag ht
+  have h1 := List.all_eq_true.mp (List.all_eq_true.mp h d hd) tag ht
+  simp only [noDoubleIn, Bool.and_eq_true] at h1
+  exact ⟨nodupNat_nodup h1.1, nodupNat_nodup h1.2⟩
+
+/-- **no borrowed member is ever released**, directly or inside its pointee; and a member that the discipline says is
+released by another function (`elsewhere`: list links, elements of an array) is not released directly here as well. -/
+theorem borrowed_never_released :
+    ∀ d ∈ dels, d.isOpaque = false → ∀ tag ∈ tagsOf d, ∀ r ∈ relsAt d tag,
+      classify r.field tag ≠ .borrowed ∧ (∀ g, classify r.field tag = .elsewhere g → r.deep = true) := by
+  have h : dels.all borrowedKeptOk = true := by decide +kernel
+  intro d hd ho tag ht r hr
+  have h1 := List.all_eq_true.mp h d hd
+  simp only [borrowedKeptOk, ho, Bool.false_or] at h1
+  have h2 := List.all_eq_true.mp (List.all_eq_true.mp h1 tag ht) r hr
+  unfold relKeptOk at h2
+  constructor
+  · intro hb; rw [hb] at h2; exact Bool.false_ne_true h2
+  · intro g hg; rw [hg] at h2; exact h2
+
+/-- **every direct release uses the function that releases the member's type**: `T_delete` for a `T *` whose type has a
+delete function, `free` otherwise (two overrides listed in `releaseOverride`), and it names a member of the struct at
+that member's offset — a shallow `free` of a node with children, or a delete of the wrong union member, breaks this. -/
+theorem releases_use_the_deleter_of_the_type :
+    ∀ d ∈ dels, d.isOpaque = false → ∀ r ∈ allRels d,
+      ∃ f ∈ d.fields, f.id = r.field ∧ f.off = r.off ∧ (r.deep = true ∨ r.fn = releaseFn f) := by
+  have h : dels.all rightFunctionOk = true := by decide +kernel
+  intro d hd ho r hr
+  have h1 := List.all_eq_true.mp h d hd
+  simp only [rightFunctionOk, ho, Bool.false_or] at h1
+  have h2 := List.all_eq_true.mp h1 r hr
+  split at h2
+  · rename_i f hf
+    have hm := List.mem_of_find?_eq_some hf
+    have hp := List.find?_some hf
+    simp only [eqN_iff, Bool.and_eq_true, Bool.or_eq_true] at hp h2
+    exact ⟨f, hm, hp, h2.1, h2.2⟩
+  · exact absurd h2 Bool.false_ne_true
+
+/-- **constructors fill only known members**: every pointer store of every constructor goes to a pointer member of its own
+struct that is in the table (hence classified), at that member's offset. -/
+theorem constructors_fill_only_known_fields :
+    ∀ d ∈ dels, ∀ c ∈ d.ctors, c.struct = d.struct ∧
+      ∀ i ∈ c.inits, ∃ f ∈ d.fields, f.id = i.field ∧ f.off = i.off := by
+  have h : dels.all ctorsKnownOk = true := by decide +kernel
+  intro d hd c hc
+  have h0 := List.all_eq_true.mp h d hd
+  unfold ctorsKnownOk at h0
+  have h1 := List.all_eq_true.mp h0 c hc
+  simp only [Bool.and_eq_true, eqN_iff] at h1
+  refine ⟨h1.1, fun i hi => ?_⟩
+  have h2 := List.all_eq_true.mp h1.2 i hi
+  split at h2
+  · rename_i f hf
+    have hp := List.find?_some hf
+    simp only [eqN_iff] at hp h2
+    exact ⟨f, List.mem_of_find?_eq_some hf, hp, h2⟩
+  · exact absurd h2 Bool.false_ne_true
+
+/-- **a fresh allocation is never parked in a borrowed member**: whatever a constructor obtains from a call (`strdup`,
+`malloc`, `T_new…`) and whatever is allocated and stored into a member later (outside constructors) goes to a member that
+somebody releases — under no tag of that constructor is the member classified `borrowed`. -/
+theorem fresh_allocations_go_to_released_fields :
+    (∀ d ∈ dels, ∀ c ∈ d.ctors, ∀ i ∈ c.inits, isFresh i.src = true →
+        ∀ tag ∈ (if c.tags.isEmpty then [0] else c.tags), classify i.field tag ≠ .borrowed) ∧
+    (∀ l ∈ lates, isFresh l.src = true → bit borrowedMask l.field = false) := by
+  have h : (dels.all ctorsFreshOk && lates.all lateFreshOk) = true := by decide +kernel
+  simp only [Bool.and_eq_true] at h
+  constructor
+  · intro d hd c hc i hi hf tag ht hb
+    have h1 := List.all_eq_true.mp (List.all_eq_true.mp (List.all_eq_true.mp h.1 d hd) c hc) i hi
+    simp only [hf, Bool.not_true, Bool.false_or] at h1
+    have h2 := List.all_eq_true.mp h1 tag ht
+    simp [isBorrowed, hb] at h2
+  · intro l hl hf
+    have h1 := List.all_eq_true.mp h.2 l hl
+    simpa only [lateFreshOk, hf, Bool.not_true, Bool.false_or, Bool.not_eq_true'] using h1
+
+/-- **`elsewhere` is honoured**: every member the discipline says is released by another delete function names a delete
+function of the tree that does have a release reaching that member's struct through a list chain or inside an element. -/
+theorem elsewhere_released_there : ∀ r ∈ specialRules, elsewhereOk r = true := by
+  have h : specialRules.all elsewhereOk = true := by decide +kernel
+  exact fun r hr => List.all_eq_true.mp h r hr
+
+/-- **a retagged node keeps the books** (statement: `Own.retagOk`): at every place outside constructors where the code
+stores a constant into the tag member of an existing node — constant folding (`constred.c`, `enumred.c`: ~150 sites),
+`param_enum_record_check_type` (a record type that turns out to be an enum), `expr_tailrec` — for every tag the node can
+have before and every owned member it can hold under that tag, the block of the store releases the member with the right
+function, or moves it to a member that the new tag's arm releases, or leaves it where the new tag's arm releases it; and
+what the block stores into an owned member is released under the new tag.  Partial: five functions are exempted after
+review (`Own.reviewedRetags`, reasons there); memory the function has just allocated (`fresh`) is initialisation. -/
+theorem retag_keeps_ownership_partial : ∀ r ∈ retags, retagReviewed r = false → retagOk r = true := by
+  have h : retags.all (fun r => retagReviewed r || retagOk r) = true := by decide +kernel
+  intro r hr hn
+  simpa only [hn, Bool.false_or] using List.all_eq_true.mp h r hr
+
+/-- an unguarded `T_delete(v->f)` dereferences `f`: it is only made under tags none of whose constructors stores NULL
+into `f` (or zeroes the node) -/
+theorem unguarded_releases_never_null : ∀ d ∈ dels, unguardedOk d = true := by
+  have h : dels.all unguardedOk = true := by decide +kernel
+  exact fun d hd => List.all_eq_true.mp h d hd
+
+/-- **a local allocation is handed on, on every path**: in every function of front/ and back/, a local variable that
+receives a fresh allocation (`malloc`, `calloc`, `strdup`, `realloc`, any `*_new*`) is, on every path to the end of the
+function, passed to a function (read-only libc functions aside), stored into a member / element / another variable, or
+returned — never simply dropped (an early `return`, a branch that forgets to register a buffer, a second allocation over
+the first).  The path analysis is the translator's (`gen/owntab.py`, class `Esc`: structured walk, may-analysis, trusted);
+this is the statement over its regenerated result. -/
+theorem local_allocations_handed_on : ∀ r ∈ localAllocs, r.lost = false := by
+  have h : localAllocs.all (fun r => !r.lost) = true := by decide +kernel
+  intro r hr
+  simpa using List.all_eq_true.mp h r hr
+
+/-- non-vacuity: at least 250 local allocations are tracked -/
+example : localAllocs.length ≥ 250 := by decide +kernel
+
+/-- the generated table has the layout the evaluation relies on (`dels[s]` is the row of type `s`, member ids are
+positions, the `dtor` column is the delete function of the pointee type, masks = label lists), the translator recognised
+every shape (`problems` empty), and every member named by the discipline exists -/
+theorem own_table_consistent :
+    rowsFrom dels 0 = true ∧ idsFrom fields 0 = true ∧ fields.length = nFields ∧ problems.isEmpty = true ∧
+    (∀ f ∈ borrowedAlways, f < nFields) := by
+  have h : (rowsFrom dels 0 && idsFrom fields 0 && eqN fields.length nFields && problems.isEmpty &&
+      borrowedAlways.all (Nat.blt · nFields)) = true := by decide +kernel
+  simp only [Bool.and_eq_true, eqN_iff] at h
+  refine ⟨h.1.1.1.1, h.1.1.1.2, h.1.1.2, h.1.2, fun f hf => ?_⟩
+  have := List.all_eq_true.mp h.2 f hf
+  exact Nat.blt_eq.mp this
+
+/-! ### non-vacuity: what the table covers -/
+
+/-- coverage: at least 85 delete functions (struct types), 300 pointer members, 160 constructors, 80 shapes of retagging
+sites; at least 200 (delete function, tag, member) obligations of `owned_fields_released` have all hypotheses true -/
+example : dels.length ≥ 85 ∧ nFields ≥ 300 ∧ ctors.length ≥ 160 ∧ retags.length ≥ 80 ∧
+    (dels.map fun d => if d.isOpaque then 0 else
+      ((tagsOf d).map fun tag => if reachable (ctorsFor d tag) tag then
+        (d.fields.filter fun f => holds (ctorsFor d tag) f && isOwned f.id tag).length else 0).sum).sum ≥ 200 := by
+  decide +kernel
+
+/-- the checks do fail on a wrong table: `bind_delete` without its first release (`free(id)`) leaves an owned member;
+with its first release twice it releases twice; `expr_delete` releasing a typing link releases a borrowed member -/
+example : (match dels.find? (fun d => eqN d.fn Fn.bind_delete) with
+    | some d => (ownedReleasedOk d, ownedReleasedOk { d with common := d.common.drop 1 },
+                 noDoubleOk d, noDoubleOk { d with common := d.common.take 1 ++ d.common })
+    | none => (false, false, false, false)) = (true, false, true, false) := by decide +kernel
+example : (match dels.find? (fun d => eqN d.fn Fn.expr_delete) with
+    | some d => (borrowedKeptOk d, borrowedKeptOk { d with common := [⟨F.expr__comb_array_comb_ret, 24, Fn.param_delete, true, 0, false, false, 0, ""⟩] })
+    | none => (false, false)) = (true, false) := by decide +kernel
+/-- the retag check fails when the new tag's arm does not release what the old tag held: a `PARAM_RECORD` turned into
+`PARAM_ENUMTYPE` by a site that is told the enum arm releases nothing -/
+example : (retags.filter fun r => eqN r.fn Fn.param_enum_record_check_type).all retagOk = true ∧
+    (retags.filter fun r => eqN r.fn Fn.param_enum_record_check_type).all (fun r => retagOk { r with tag := T.PARAM_INT }) = false := by
+  decide +kernel
+/-- the classification is not trivial: owned, borrowed, released-elsewhere and conditionally owned members all occur -/
+example : classify F.expr__left T.EXPR_ADD = .owned ∧ classify F.expr__comb_func_comb_ret T.EXPR_ADD = .borrowed ∧
+    classify F.module_decl__id T.MODULE_DECL_TYPE_MOD = .owned ∧ classify F.module_decl__id T.MODULE_DECL_TYPE_REF = .borrowed ∧
+    classify F.expr_list_node__next 0 = .elsewhere Fn.expr_list_delete ∧ classify F.functab_entry__id 0 = .ownedCond := by
+  decide +kernel
+
+
+/-! ### what the table theorems mean on heaps (`Model/OwnSem.lean`) -/
+section Sem
+open Never.OwnSem
+
+/-- **what a delete function releases is what the node owns**: for every delete function of a struct of the project (arrays
+of structs aside) and every tag a node can have, the direct unconditional releases at offsets where a member can hold a
+value are — as (offset, type of the child, list link) triples, up to order — exactly the members the discipline classifies
+as owned among those that can hold a value; a list head is released along the link member that the discipline attributes
+to the list's delete function. -/
+theorem table_edges_match :
+    ∀ d ∈ dels, ∀ tag ∈ tagsOf d, inScope d tag = true →
+      ((relEdges d tag).filter fun e => heldOff d tag e.off).Perm (ownedEdges d tag) := by
+  have h : dels.all edgesMatchOk = true := by decide +kernel
+  intro d hd tag ht hs
+  have h1 := List.all_eq_true.mp (List.all_eq_true.mp h d hd) tag ht
+  simp only [hs, Bool.not_true, Bool.false_or] at h1
+  exact List.isPerm_iff.mp h1
+
+/-- **deleting a node frees exactly the blocks it owns.**  In ANY heap of nodes whose non-NULL slots lie where the
+constructors / later stores of the tree can put a value (`WF`), for any fuel, any start address `a` and static type `τ`:
+the walk that does what `τ_delete(a)` does according to the regenerated table — release every direct member the function
+releases under the node's tag (recursively with the child type's delete function, a list along its link), then free the
+node — and the walk that enumerates what the node owns according to the discipline either both get stuck (out of fuel,
+dangling pointer, a child of another type than the member's) or yield the same blocks up to order. -/
+theorem delete_frees_exactly_the_owned_tree (h : Heap) (wf : WF h) (fuel τ a : Nat) :
+    Agree (walk tableRels h fuel τ a) (walk tableOwned h fuel τ a) := by
+  refine (walkP_agree tableRels tableOwned h ?_ fuel).1 τ a
+  intro a n hn
+  simp only [tableRels, tableOwned]
+  cases hd : delOf n.ty with
+  | none => exact ⟨fun _ => true, by simp, by simp⟩
+  | some d =>
+    cases hs : inScope d n.tag with
+    | false => exact ⟨fun _ => true, by simp, by simp [hs]⟩
+    | true =>
+      simp only [hs, ↓reduceIte]
+      refine ⟨fun e => heldOff d n.tag e.off, fun e _ hp => ?_, ?_⟩
+      · cases hc : n.slot e.off with
+        | none => rfl
+        | some c =>
+          have hh := wf a n hn d hd hs e.off c hc
+          simp only [hh] at hp
+          cases hp
+      · have hmem : d ∈ dels := List.mem_of_getElem? hd
+        have htag : n.tag ∈ tagsOf d := by
+          have : (tagsOf d).any (eqN n.tag) = true := by
+            simp only [inScope, Bool.and_eq_true] at hs; exact hs.1.2
+          obtain ⟨t, ht, he⟩ := List.any_eq_true.mp this
+          rw [eqN_iff.mp he]; exact ht
+        exact table_edges_match d hmem n.tag htag hs
+
+/-- **no double free, no leak, no foreign free**: if what the node owns (transitively, by the discipline) is a tree — the
+enumeration `bs` has no repetition — then the delete function terminates with the same fuel, frees every block of `bs`,
+only those, and none twice. -/
+theorem delete_frees_nothing_twice_and_leaves_nothing (h : Heap) (wf : WF h) (fuel τ a : Nat) (bs : List Nat)
+    (hb : walk tableOwned h fuel τ a = some bs) (hnd : bs.Nodup) :
+    ∃ fs, walk tableRels h fuel τ a = some fs ∧ fs.Nodup ∧ ∀ b, b ∈ fs ↔ b ∈ bs := by
+  have hA := delete_frees_exactly_the_owned_tree h wf fuel τ a
+  rw [hb] at hA
+  cases hf : walk tableRels h fuel τ a with
+  | none => rw [hf] at hA; exact hA.elim
+  | some fs =>
+    rw [hf] at hA
+    exact ⟨fs, rfl, (List.Perm.nodup_iff hA).mpr hnd, fun b => List.Perm.mem_iff hA⟩
+
+/-- non-vacuity: `1 + (2 * 3)`-shaped tree — an `EXPR_ADD` at 1 with an `EXPR_INT` at 2 and an `EXPR_ID` at 3 whose name is
+the block 4 (a `char`: no node, so the walk stops there with `none`… unless it is given as a leaf node of type `char`) -/
+def exHeap : Heap := fun a =>
+  if a = 1 then some ⟨S.expr, T.EXPR_ADD, fun o => if o = 40 then some 2 else if o = 48 then some 3 else none⟩
+  else if a = 2 then some ⟨S.expr, T.EXPR_INT, fun _ => none⟩
+  else if a = 3 then some ⟨S.expr, T.EXPR_ID, fun o => if o = 40 then some 4 else none⟩
+  else if a = 4 then some ⟨S.char, 0, fun _ => none⟩
+  else none
+
+example : walk tableRels exHeap 3 S.expr 1 = some [2, 4, 3, 1] ∧ walk tableOwned exHeap 3 S.expr 1 = some [2, 4, 3, 1] := by
+  decide +kernel
+
+end Sem
+
+end Own
 
 /-! ## the run-time ledger: blocks owned by the collector -/
 
